@@ -278,7 +278,7 @@ def sync_chain_storage(rep, mir, L):
     for c in (1, 2, 3):
         for N in range(1, NMAX + 1):
             for T in range(0, N + 1):
-                for parity in (0, 1):
+                for (parity, every) in ((0, 1), (1, 1), (0, 2), (1, 3), (0, None)):       # flush after every draw / every 2nd / every 3rd / only finalize
                     E = Env(mir, L); vm = E.vm; vm.hm_parity = parity; vm.loop_bound = 200
                     vm.add_model(r'^<Arc<.*> as Deref>::deref$', lambda vm, m, c, a: ret(m, a[0]))
                     vm.add_model(r'^<\[&str; 2\]>::contains$|^core::slice::<impl \[&str\]>::contains$', lambda vm, m, c, a: ret(m, deref_val(vm, m, a[1]).s in ('draw', 'chain')))
@@ -315,6 +315,7 @@ def sync_chain_storage(rep, mir, L):
                         o = vm.run(rec, [Ref(sc), Ref(m.alloc(Opaque('settings'))), stats, draws, Ref(m.alloc(info))], m)
                         if len(o) != 1 or o[0][1] != 'ret' or o[0][2].name != 'Ok': bad.setdefault('sync.record', ('record_sample fails / forks: %s' % str([(k, str(v)[:120]) for (_, k, v) in o][:2]), (c, N, T))); ok = False; break
                         m = o[0][0]; apply_writes(m)
+                        if every is None or (d + 1) % every != 0: continue
                         before = m.mem[sc]
                         o = vm.run(flush, [Ref(sc)], m)
                         if len(o) != 1 or o[0][1] != 'ret' or o[0][2].name != 'Ok': bad.setdefault('sync.flush', ('flush fails / forks: %s' % str([(k, str(v)[:120]) for (_, k, v) in o][:2]), (c, N, T))); ok = False; break
@@ -328,7 +329,7 @@ def sync_chain_storage(rep, mir, L):
                     rep.absorb_vm(vm)
     rep.paths += nruns
     for key, (what, where) in bad.items(): rep.violated('C15.C ' + key, key, '%s %s' % (what, where), model={'where': str(where)})
-    if not bad: rep.holds('C15.C sync ZarrChainStorage end to end (chunk size 1-3, 1-%d draws, every warm-up/sampling split, flush after every draw, finalize): every array holds exactly the draws of its phase recorded so far, in order; flush does not change the storage (%d runs, %d flushes)' % (NMAX, nruns, nflush), time.time() - t0)
+    if not bad: rep.holds('C15.C sync ZarrChainStorage end to end (chunk size 1-3, 1-%d draws, every warm-up/sampling split, flush after every draw / every 2nd / every 3rd / never, finalize): every array holds exactly the draws of its phase recorded so far, in order; flush does not change the storage (%d runs, %d flushes)' % (NMAX, nruns, nflush), time.time() - t0)
     rep.cover('C15.C flushes executed', nflush > 0)
 
 
